@@ -49,7 +49,8 @@ import numpy as np
 from common import xr, xvec, from_xr, from_xvec, num_close
 
 ID = "C12"
-TARGETS = ["Proofs.C12", "Proofs.C12Labels", "Proofs.C12Descs", "Proofs.Lemmas.Decimal", "Proofs.Lemmas.Table"]
+TARGETS = ["Proofs.C12", "Proofs.C12Labels", "Proofs.C12Descs", "Proofs.C12Columns", "Proofs.Lemmas.Decimal",
+           "Proofs.Lemmas.Table"]
 GEN_PREFIXES = []
 THEOREMS = {
     "Proofs.C12": ["VerifModel.C12." + t for t in [
@@ -62,6 +63,8 @@ THEOREMS = {
         "C12_week_label_iff_false", "C12_week_same_label_two_weeks", "C12_week_one_week_two_labels"]],
     "Proofs.C12Descs": ["VerifModel.C12." + t for t in [
         "C12_descs_quantile", "C12_descs_not_quantile", "C12_descs_given", "C12_threshold_column_rows"]],
+    "Proofs.C12Columns": ["VerifModel.C12." + t for t in [
+        "C12_columns_scored", "C12_table_columns", "C12_rows_ascending", "C12_rows_ascending_axis", "C12_text_cell", "C12_loc_descs"]],
     "Proofs.Lemmas.Decimal": ["VerifModel.Decimal." + t for t in [
         "ilog10_spec", "floorLog10_spec", "roundHalfEven_spec", "toDec_digits", "toDec_sound", "toDec_exp",
         "unsignedVal_fixed", "unsignedVal_sci", "fmtG_reads", "fmtG_sound"]],
@@ -82,6 +85,13 @@ TRUSTED_BASE = [
     "wday) / 7), tied by stream out.tlabel (real method, 31 days x 12 seconds of the day x 5 axes on every run); "
     "its calendar arithmetic is Base/Calendar.lean, proved equal to the textbook calendar for 1900-2100 in "
     "Proofs/C11Calendar.lean (one kernel evaluation over the 73 414 days)",
+    "Model/OutputColumns.lean: hand-written mirror of Data.num_inputs / get_names / get_legend (data.py:396-415, "
+    "738-739) and of the column loop of Standard._get_x_y (output.py:836-849) over the DataS of Model/Data.lean "
+    "(inputs = scored files followed by the climatology); no stream of its own: the out.table ops with -c / -C (9 % "
+    "of the deterministic scenarios) compare the emitted header / columns with the scored files of the command line; "
+    "the input names are a parameter of the theorem (the Input model of Model/Data.lean carries no name); locDescs "
+    "(location branch of get_axis_descriptions) has no stream either: the descriptor columns reach the writer model "
+    "as captured values and are compared by the oracle with the station table of the first file for every metric",
     "not modelled: Python's str() of a NumPy scalar (csv descriptor fields; compared by parsed value), "
     "the round trip of an instant through matplotlib's date numbers (exact for whole seconds; out.tlabel), "
     "fractional seconds, IEEE rounding of np.cumsum and of the "
@@ -113,6 +123,18 @@ ASSUMPTIONS = [
     "Threshold column theorems: for every metric description, -r / -q / stored lists with -q non-empty when given; the "
     "20 default thresholds of deterministic metrics (data dependent) and the refusal of quantilescore / spread with "
     "-b below* (raised inside the metric) are outside Model/OutputDescs.lean",
+    "row order: 'ascending for data dimensions' is read as: the leading field is strictly increasing down the rows for "
+    "-x time / day / week / month / year (label text order = time order for years 1000-9999), leadtime, leadtimeday, "
+    "timeofday, dayofyear, dayofmonth, monthofyear (numeric) and for the location-like axes, where the order is that of "
+    "Data.locations = ascending station id for -x location AND for -x lat / lon / elev (checked on the real tool: the "
+    "rows of -x lat are in id order, latitudes 50, -33.5, 42 for ids 3, 7, 41, not ascending latitude); -x threshold / "
+    "obs / fcst keep the order of -r and -x no has one row.  Lean: C12_rows_ascending (times, lead times, ids of every "
+    "DataS that Data.init returns) and C12_rows_ascending_axis (np.unique of the bucket values)",
+    "-c / -C: the climatology file has the observations of the scenario and shares at least one date, lead time and "
+    "station with the scored files; anomalies of the plain-Python path are computed in float32 as the arrays are",
+    "station ids >= 1e6 in -type text: the id column is %g (6 significant digits), so 1234567 and 1234568 print alike "
+    "(known finding text-id-6-digits, witness in corpus/C12.txt); the text round-trip theorems speak about the printed "
+    "decimal, not about the id",
     "probabilistic files: every file of a scenario has the same thresholds / quantile levels apart from one extra "
     "column in one file; CDF values k/8 non-decreasing in the threshold, quantile values non-decreasing in the level",
 ]
@@ -120,7 +142,11 @@ RULE = ("out.table (first, so that a failing input is a command line): 1-3 gener
         "times x 1-4 stations, rows shuffled, rows dropped, NaN / -999, extra dates / lead times / stations in some "
         "files), metric round-robin over 14 deterministic + 12 contingency + obsfcst, -x round-robin over 16 documented "
         "axes + default + threshold + obs/fcst, -r/-b (8 bin types), -leg, -acc, -f, -agg (12 aggregators incl. numeric "
-        "levels) on the 7 metrics that honour it; every fourth scenario is probabilistic (p<t> / q<level> / pit columns "
+        "levels) on the 7 metrics that honour it; 9 % of these scenarios carry a climatology file (-c or -C, one date / "
+        "station fewer or one date / lead time more than the scored files, zeros and missing values among the "
+        "climatological values): expected header = scored files only, scores recomputed on Data(..., clim=) and, for "
+        "mae / bias / a, from the file rows as anomalies; stations include the ids 1234567 and 1234568; the leading "
+        "field must be strictly increasing on every data axis; every fourth scenario is probabilistic (p<t> / q<level> / pit columns "
         "or 5 ensemble members; one file with an extra threshold and level) with bs, bss, ign0 (-r from the stored "
         "thresholds or absent, -b), quantilescore (-q or absent), spread (-q pair), pithistdev, pit (-agg), half of them "
         "on -x threshold; out.table.perm: 6 orders of -r 1,3,5 x 4 within-type bins x csv/text x {a, ets, bs}; "
@@ -147,7 +173,11 @@ LEVEL_TEXT = ("Lean theorems over the model of the writers: parse(print(table)) 
               "size; %.{p}g is sound for every non-zero rational and every p: the printed numeral reads back as "
               "+-m*10^(X-P+1) with exactly P significant digits, within half a unit of the P-th digit of the exact "
               "value, scientific notation exactly when X < -4 or X >= P (both notations, string level); nan/inf/0 "
-              "exact; -acc entry (i,j) is the sum over k<=i of the scores with NaN as 0 (infinite scores included); threshold "
+              "exact; the text field of input f in line i is %.4g of y[i][f] (C12_text_cell); the value columns are the scored "
+              "inputs in command-line order, the climatology of -c / -C is never a column and column j is input j's score "
+              "vector (C12_columns_scored, C12_table_columns over Data.init); the verified times, lead times and station "
+              "ids are strictly increasing and so are the np.unique bucket values of the derived axes "
+              "(C12_rows_ascending, _axis); -acc entry (i,j) is the sum over k<=i of the scores with NaN as 0 (infinite scores included); threshold "
               "averaging is the mean over intervals; the -f content is the printed content; the -x time row label of an "
               "initialisation time is YYYY-MM-DD HH:MM:SS of its textbook civil date and second of the day, two init "
               "times with the same label are the same instant (so the rows of a table carry pairwise distinct labels), "
@@ -186,7 +216,8 @@ DATES = [20120101, 20120102, 20120103, 20120108, 20120131, 20120201, 20120229, 2
          20130101, 20130615, 20111230]
 LEADS = [0, 1, 3, 6, 12, 18, 24, 30, 36, 48, 72]
 LOCS = [(3, 50, 10, 12), (41, 42, 23, 341), (7, -33.5, 151.25, 0), (100, 60.25, -120.5, 1500),
-        (18, 0, 0, -5), (2005, 71.125, 25.5, 10.5)]
+        (18, 0, 0, -5), (2005, 71.125, 25.5, 10.5),
+        (1234567, 10.5, 20, 100), (1234568, -10.5, 21, 200)]   # two ids that %g (6 digits) prints alike
 SPECIAL_Y = [0.0, 1.0, -1.0, 0.5, 2.5e-5, 999999.5, 1e-5, 123456.5, 9.9999949e-5, 99999.95, 1234.5, 12345.0,
              0.1, 1 / 3.0, -2 / 3.0, 1e22, 1.5e-7, 5e-324, 1.7976931348623157e308, float("nan"), float("inf"),
              float("-inf"), 100.0, 1e6, 1e5, 0.0001, 0.00012345, 5.33333333, 2.0, 41.0, 0.30000000000000004]
@@ -315,7 +346,7 @@ def _write_files(scen, d):
     """scen["t"]: absent = a date column (init times at midnight); "h" = date and hour columns; "u" = a unixtime
     column (any second of the day)"""
     paths = []
-    for fl in scen["files"]:
+    for fl in scen["files"] + ([scen["clim"]] if scen.get("clim") else []):
         p = os.path.join(d, fl["n"])
         with open(p, "w") as f:
             f.write(TIMECOLS[scen.get("t")] + " leadtime location lat lon altitude obs fcst" +
@@ -323,11 +354,19 @@ def _write_files(scen, d):
             for r in fl["r"]:
                 f.write(r.replace("~", " ") + "\n")
         paths.append(p)
-    return paths
+    return paths[:len(scen["files"])]                  # the scored files; the climatology file is written, not listed
+
+
+def _clim_argv(scen, d=None):
+    """the -c / -C option of the scenario ([] if none); scen["clim"] = {"n": file name, "r": rows, "o": "-c" | "-C"}"""
+    c = scen.get("clim")
+    if not c:
+        return []
+    return [c["o"], c["n"] if d is None else os.path.join(d, c["n"])]
 
 
 def cmdline(scen, with_f=False):
-    return "verif " + " ".join(fl["n"] for fl in scen["files"]) + " " + " ".join(scen["args"]) + \
+    return "verif " + " ".join(fl["n"] for fl in scen["files"]) + " " + " ".join(scen["args"] + _clim_argv(scen)) + \
         (" -f out.txt" if with_f else "")
 
 
@@ -342,7 +381,7 @@ def _run(scen, with_f, capture=False):
     res = {"status": "ok", "out": "", "file": None}
     try:
         paths = _write_files(scen, d)
-        argv = ["verif"] + paths + list(scen["args"])
+        argv = ["verif"] + paths + list(scen["args"]) + _clim_argv(scen, d)
         ofile = os.path.join(d, "out.txt")
         if with_f:
             argv += ["-f", ofile]
@@ -600,7 +639,35 @@ def _gen_scenario(rng, k):
                                                       obs[(d, l, s[0])], fc))
         rng.shuffle(rows)
         files.append({"n": names[f], "r": rows})
-    return {"files": files, "args": _gen_args(rng, k, nf, AXES)}
+    scen = {"files": files, "args": _gen_args(rng, k, nf, AXES)}
+    if rng.random() < 0.09:
+        scen["clim"] = _gen_clim(rng, dates, leads, locs, obs)
+    return scen
+
+
+def _gen_clim(rng, dates, leads, locs, obs):
+    """a climatology file for -c (subtract) / -C (divide): the dimensions of the scenario, sometimes one date / lead
+    time / station fewer or more, the observations of the scenario, its forecast column = the climatological value
+    (zeros and missing values included: a case without a finite anomaly is not a case)"""
+    d2, l2, s2 = list(dates), list(leads), list(locs)
+    if rng.random() < 0.2:
+        d2.append(20140101)
+    if rng.random() < 0.2:
+        l2.append(96)
+    if len(dates) > 1 and rng.random() < 0.15:
+        d2.pop(rng.randrange(len(dates)))          # one common date fewer (never the only one)
+    if len(s2) > 1 and rng.random() < 0.15:
+        s2.pop(rng.randrange(len(s2)))
+    flag = rng.choice(["-c", "-C"])
+    rows = []
+    for (d, l, s) in itertools.product(d2, l2, s2):
+        if rng.random() < 0.04 and rows:
+            continue
+        r = rng.random()
+        cv = "nan" if r < 0.05 else ("0" if r < 0.12 else _fmtval(rng))
+        rows.append(_row(d, l, s, obs[(d, l, s[0])], cv))
+    rng.shuffle(rows)
+    return {"n": "clim.txt", "r": rows, "o": flag}
 
 
 def _gen_args(rng, k, nf, axes):
@@ -1202,13 +1269,13 @@ def _parse_emitted(kind, text):
     return out
 
 
-def _expected_from_files(scen):
+def _expected_from_files(scen, with_clim=False):
     """pure-Python reading of the generated rows: common dimensions, per-file (obs, fcst) tables; the time key is
     the initialisation time in seconds since 1970 (date [+ hour] columns or the unixtime column)"""
     tabs, dsets, lsets, ssets, meta = [], [], [], [], {}
     t = scen.get("t")
-    for fl in scen["files"]:
-        tab = {}
+    for fl in scen["files"] + ([scen["clim"]] if scen.get("clim") else []):   # the climatology takes part in the
+        tab = {}                                                                # common dimensions (data.py:100)
         for r in fl["r"]:
             c = r.split("~")
             if t == "h":
@@ -1232,7 +1299,31 @@ def _expected_from_files(scen):
     times = sorted(set.intersection(*dsets))
     leads = sorted(set.intersection(*lsets))
     locs = sorted(set.intersection(*ssets))
-    return tabs, times, leads, locs, meta
+    ctab = None
+    if scen.get("clim"):
+        ctab, tabs = tabs[-1], tabs[:-1]
+    return (tabs, times, leads, locs, meta, ctab) if with_clim else (tabs, times, leads, locs, meta)
+
+
+def _anomaly(scen, ctab, key, vals):
+    """(obs, fcst) of every scored file for one case under -c / -C: the climatology's forecast for the same case is
+    subtracted from (-c) or divided into (-C) observation and forecast, in float32 as the arrays are; a case whose
+    climatology is missing is missing for every file; a non-finite anomaly makes the case missing for that file"""
+    if ctab is None:
+        return vals
+    co, cf = ctab.get(key, (float("nan"), float("nan")))
+    if math.isnan(co) or math.isnan(cf):
+        return [(float("nan"), float("nan"))] * len(vals)
+    out = []
+    with np.errstate(all="ignore"):
+        for o, f in vals:
+            if scen["clim"]["o"] == "-c":
+                o2, f2 = np.float32(o) - np.float32(cf), np.float32(f) - np.float32(cf)
+            else:
+                o2, f2 = np.float32(o) / np.float32(cf), np.float32(f) / np.float32(cf)
+            o2, f2 = float(o2), float(f2)
+            out.append((o2, f2) if math.isfinite(o2) and math.isfinite(f2) else (float("nan"), float("nan")))
+    return out
 
 
 def _subdaily(scen):
@@ -1291,7 +1382,7 @@ def _pure(scen, metric, axis):
     args = scen["args"]
     agg = _arg(args, "-agg")
     if metric == "a" and axis == "threshold" and "-r" in args:
-        tabs, times, leads, locs, meta = _expected_from_files(scen)
+        tabs, times, leads, locs, meta, ctab = _expected_from_files(scen, True)
         thr = [float(t) for t in _arg(args, "-r").split(",")]
         b = _arg(args, "-b", "above")
         pairs = [(thr[i], thr[i + 1]) for i in range(len(thr) - 1)] if b in WITHIN else [(t, t) for t in thr]
@@ -1299,7 +1390,9 @@ def _pure(scen, metric, axis):
         for ut, l, s in itertools.product(times, leads, locs):
             vals = [t.get((ut, l, s), (float("nan"), float("nan"))) for t in tabs]
             if all(not math.isnan(o) and not math.isnan(f) for o, f in vals):
-                cases.append(vals)
+                vals = _anomaly(scen, ctab, (ut, l, s), vals)
+                if all(not math.isnan(o) for o, f in vals):       # same obs and climatology for every file
+                    cases.append(vals)
         out = []
         for i, (lo, hi) in enumerate(pairs):
             sc = [sum(1 for c in cases if _in_interval(b, lo, hi, c[f][0]) and _in_interval(b, lo, hi, c[f][1])) /
@@ -1309,7 +1402,7 @@ def _pure(scen, metric, axis):
     if metric not in ("mae", "bias") or axis not in ("leadtime", "location", "lat", "lon", "elev", "time", "day",
                                                       "week", "month", "year", "timeofday", "no"):
         return None
-    tabs, times, leads, locs, meta = _expected_from_files(scen)
+    tabs, times, leads, locs, meta, ctab = _expected_from_files(scen, True)
 
     def keyof(ut, l, s):
         d = _civil(ut)[0]
@@ -1322,7 +1415,7 @@ def _pure(scen, metric, axis):
         first.setdefault(keyof(ut, l, s), ut)
         vals = [t.get((ut, l, s), (float("nan"), float("nan"))) for t in tabs]
         if all(not math.isnan(o) and not math.isnan(f) for o, f in vals):
-            groups[keyof(ut, l, s)].append(vals)
+            groups[keyof(ut, l, s)].append(_anomaly(scen, ctab, (ut, l, s), vals))
     out = []
     for k in sorted(groups):
         if axis == "leadtime":
@@ -1339,7 +1432,7 @@ def _pure(scen, metric, axis):
             desc = None
         sc = []
         for f in range(len(tabs)):
-            v = [g[f] for g in groups[k]]
+            v = [g[f] for g in groups[k] if not math.isnan(g[f][0])]
             if not v:
                 sc.append(float("nan"))
             elif metric == "mae":
@@ -1386,7 +1479,11 @@ def _recompute(scen):
             with warnings.catch_warnings():
                 warnings.simplefilter("ignore")
                 inputs = [verif.input.get_input(p) for p in paths]
-                data = verif.data.Data(inputs)
+                if scen.get("clim"):
+                    data = verif.data.Data(inputs, clim=verif.input.get_input(_clim_argv(scen, d)[1]),
+                                           clim_type="subtract" if scen["clim"]["o"] == "-c" else "divide")
+                else:
+                    data = verif.data.Data(inputs)
                 thr = _arg(args, "-r")
                 thr = None if thr is None else np.array([float(t) for t in thr.split(",")])
                 if metric == "obsfcst":
@@ -1478,6 +1575,7 @@ def _judge_table(a, impl_out):
     axis_arg = _arg(args, "-x", "default")
     sig = {"type": kind, "axis": axis_arg, "metric": _arg(args, "-m"), "acc": "-acc" in args, "f": with_f,
            "subdaily": _subdaily(scen), "agg": "-agg" in args, "input": scen.get("k", "det"),
+           "clim": (scen.get("clim") or {}).get("o"),
            "xgroup": "field" if axis_arg in ("obs", "fcst") else ("threshold" if axis_arg == "threshold" else "dim")}
     cl = cmdline(scen, with_f)
     if impl_out.startswith("RUN:") or impl_out.startswith("EXC:") or impl_out.startswith("EXIT:"):
@@ -1545,6 +1643,30 @@ def _judge_table(a, impl_out):
                 return (dict(sig, kind="descriptor"), "%s: rows %d and %d carry the same leading field(s) %r although "
                         "they are different slices" % (cl, seen[lead], i, list(lead)))
             seen[lead] = i
+    # rows in axis order: ascending for the data dimensions (time, lead time, location id and the axes derived from
+    # them); the threshold-like axes keep the order of the command line
+    if aname != "no" and hdr[0] not in ("Threshold", "Observed", "Forecasted"):
+        col = [line[0] for line in body]
+        try:
+            keys = [float(c) for c in col]
+        except ValueError:
+            keys = col                                 # %Y-%m-%d %H:%M:%S, %Y/%m/%d, %Y/%m, %Y/%U: text order = time order
+        for i in range(len(keys) - 1):
+            if kind == "text" and hdr[0] == "id" and keys[i] == keys[i + 1] and dvals[i][0] < dvals[i + 1][0]:
+                return (dict(sig, kind="id-collision"), "%s: rows %d and %d are the stations %r and %r, both are "
+                        "labelled %r in the id column (%%g keeps 6 significant digits)"
+                        % (cl, i, i + 1, dvals[i][0], dvals[i + 1][0], col[i]))
+            if not keys[i] < keys[i + 1]:
+                return (dict(sig, kind="order"), "%s: rows %d and %d carry %r then %r: the leading field is not "
+                        "strictly increasing along the %s axis" % (cl, i, i + 1, col[i], col[i + 1], aname))
+    # location-like axes, every metric: lat / lon / elev of a row are those the first file gives for the row's id
+    if hdr[0] == "id":
+        meta = _expected_from_files(scen)[4]
+        for i, line in enumerate(body):
+            want = meta.get(int(dvals[i][0]))
+            if want is None or not all(_desc_matches(line[1 + j], want[j], kind) for j in range(3)):
+                return (dict(sig, kind="descriptor"), "%s: row %d (station %r) carries lat/lon/elev %r, the first file "
+                        "says %r" % (cl, i, dvals[i][0], line[1:4], want))
     # second, library-free path for mae / bias
     pure = _pure(scen, _arg(args, "-m"), aname)
     if pure is not None:
